@@ -30,23 +30,18 @@ TRANSIENT = {
     # --- interface bases: state fixed by the constructor of the concrete class
     ("AbstractModel", "m_features"): "feature flags set by the concrete class's constructor, not object state",
     ("AbstractKernelFunction", "m_features"): "feature flags set by the constructor",
-    ("AbstractMetric", "m_features"): "feature flags set by the constructor",
+    ("AbstractClustering", "m_features"): "feature flags set by the constructor",
     ("AbstractOptimizer", "m_features"): "feature flags set by the constructor",
-    ("AbstractObjectiveFunction", "m_features"): "feature flags set by the constructor",
-    ("INameable", "m_name"): "human-readable name, set by the constructor",
     # --- raw pointers to objects the instance does not own (user supplies them on construction)
     ("LineSearch", "m_function"): "pointer to the external objective function (set by init)",
     ("CMA", "mpe_rng"): "pointer to the external random generator",
     ("ElitistCMA", "mpe_rng"): "pointer to the external random generator",
     ("CMSA", "mpe_rng"): "pointer to the external random generator",
-    ("CrossEntropyMethod", "mpe_rng"): "pointer to the external random generator",
     ("IndicatorBasedSteadyStateMOCMA", "mpe_rng"): "pointer to the external random generator",
     ("IndicatorBasedMOCMA", "mpe_rng"): "pointer to the external random generator",
     ("IndicatorBasedRealCodedNSGAII", "mpe_rng"): "pointer to the external random generator",
     ("SMSEMOA", "mpe_rng"): "pointer to the external random generator",
-    ("MOEAD", "mpe_rng"): "pointer to the external random generator",
-    ("RVEA", "mpe_rng"): "pointer to the external random generator",
-    ("DropoutLayer", "mpe_rng"): "pointer to the external random generator",
+    ("DropoutLayer", "mep_rng"): "pointer to the external random generator",
     ("BaseNearestNeighbor", "m_algorithm"): "pointer to the external nearest-neighbour algorithm object",
     ("GaussianTaskKernel", "m_data"): "reference to the external task data set",
     ("GaussianTaskKernel", "mpe_inputKernel"): "pointer to the external input kernel",
@@ -57,8 +52,6 @@ TRANSIENT = {
     ("NeuronLayer", "m_neuron"): "activation functor (empty struct)",
     # --- caches / scratch recomputed from streamed members, init-only configuration
     ("Conv2DModel", "m_backpropFilters"): "cache; read() recomputes it with updateBackpropFilters()",
-    ("Conv2DModel", "m_inputShape"): "derived from the streamed image sizes",
-    ("Conv2DModel", "m_outputShape"): "derived from the streamed image sizes",
     ("CMA", "m_userSetMu"): "configuration flag consulted only by init()",
     ("CMA", "m_userSetLambda"): "configuration flag consulted only by init()",
     ("CMA", "m_initSigma"): "configuration consulted only by init()",
@@ -67,7 +60,6 @@ TRANSIENT = {
     ("CMSA", "m_initSigma"): "configuration consulted only by init()",
     ("LBFGS", "m_updThres"): "constant 1e-10 assigned by init(); no setter",
     ("compressed_matrix_impl", "m_storage"): "raw view of m_manager's buffers; serialize() re-points it after loading",
-    ("VectorStorage", "m_storage"): "raw view of the owning vectors; nnz/capacity are streamed through it and it is re-pointed after loading",
 }
 
 # accessor functions used in stream statements instead of the member: (class, accessor) -> member
@@ -75,6 +67,9 @@ ACCESSORS = {
     ("EnsembleImpl", "model"): "m_models",
     ("Ensemble", "model"): "m_models",
 }
+
+# macros that declare data members (include/shark/Core/Flags.h): macro -> [(member, type)]
+MACRO_MEMBERS = {"SHARK_FEATURE_INTERFACE": [("m_features", "Features")]}
 
 # locals that carry a member through an intermediate object: (class, local) -> member
 LOCAL_ALIASES = {
@@ -299,6 +294,9 @@ def parse_class(c):
             continue
         if blk is not None:
             continue
+        for mac, mems in MACRO_MEMBERS.items():
+            if re.search(r"\b" + mac + r"\b", hd):
+                c.members += [x for x in mems if x not in c.members]
         tm = re.match(r"\s*typedef\s+(.*?)\s+(\w+)\s*$", " ".join(hd.split()), re.S)
         if tm:
             c.typedefs[tm.group(2)] = tm.group(1); continue
@@ -674,8 +672,15 @@ def kind_of_field(f, classes_fields):
             sub = sub[3:]
         elif sub == ".value": return "KDbl"
         elif sub == ".point": return "KVec KDbl"
-        else:
-            return "KAtom " + coq_str("typeof " + f["name"])[:80]
+        elif re.match(r"^\.([A-Za-z_]\w*)", sub) and ALL_CLASSES[0] is not None:
+            # member of a nested struct (e.g. WeightedSumKernel::tBase::weight)
+            mm = re.match(r"^\.([A-Za-z_]\w*)", sub)
+            tn = re.sub(r"<.*$", "", re.sub(r"\b(const|typename)\b|[&*]", " ", t), flags=re.S).strip().split("::")[-1].strip()
+            sc = resolve(ALL_CLASSES[0], tn)
+            mty = dict(sc.members).get(mm.group(1)) if sc is not None else None
+            if mty is None:
+                return "KAtom " + coq_str("typeof " + f["name"])[:80]
+            t = mty; sub = sub[mm.end():]
     return kind_of_type(t, classes_fields)
 
 
@@ -810,15 +815,26 @@ def translate_class(classes, texts, c):
     res["member_decl"] = decl
     res["member_types"] = {m: " ".join(mt[m].split()) for m in members}
     tr = []
+    streamed = set(f["root"] for f in out.get("write", []))
     for m in members:
+        if m in streamed: continue          # e.g. AbstractModel itself streams m_features
         key = (decl[m], m)
         if key in TRANSIENT: tr.append((m, TRANSIENT[key]))
         elif (c.name, m) in TRANSIENT: tr.append((m, TRANSIENT[(c.name, m)]))
     res["transient"] = tr
+    for m, _ in tr:
+        USED_TRANSIENT.add((decl[m], m)); USED_TRANSIENT.add((c.name, m))
     return res
 
 
 REPO_FOR_REL = ["/repo"]
+ALL_CLASSES = [None]
+USED_TRANSIENT = set()
+
+
+def dead_transient_entries(classes):
+    """table entries that name a class present in the tree but match no member of any translated class"""
+    return sorted("%s::%s" % k for k in TRANSIENT if k not in USED_TRANSIENT and k[0] in classes)
 
 
 def is_serializable(classes, c):
@@ -882,6 +898,7 @@ def emit_coq(r, classes_fields):
 def translate(repo):
     REPO_FOR_REL[0] = repo
     texts, classes = scan_repo(repo)
+    ALL_CLASSES[0] = classes
     todo = []
     for name, cs in sorted(classes.items()):
         for c in cs:
@@ -965,6 +982,7 @@ def _json_stream(t):
 
 
 def _walk(n, f):
+    if n.get("kind") == "DoStmt": return        # SHARK_ASSERT / SIZE_CHECK / SHARK_RUNTIME_CHECK expansions (the translator ignores them too)
     f(n)
     for c in n.get("inner", []) or []:
         if isinstance(c, dict): _walk(c, f)
@@ -972,6 +990,8 @@ def _walk(n, f):
 
 def _this_root(n):
     """name of a member expression whose object is `this` (explicit or implicit), else None"""
+    if n.get("kind") in ("UnresolvedLookupExpr", "UnresolvedMemberExpr"):   # member of a dependent base named by a using-declaration
+        return n.get("name")
     if n.get("kind") not in ("MemberExpr", "CXXDependentScopeMemberExpr"): return None
     inner = [c for c in (n.get("inner") or []) if isinstance(c, dict)]
     if not inner:
@@ -997,36 +1017,38 @@ def ast_class(repo, cname, rel, includes, tmpdir):
         return None, "clang failed: %r" % ex
     if not p.stdout.strip():
         return None, "clang produced no AST (%s)" % p.stderr[-300:]
-    fields = []; rw = {"read": None, "write": None}
+    fields = []; rw = {"read": [], "write": []}
+    def roots_of(md):
+        roots = []
+        _walk(md, lambda n: roots.append(_this_root(n)) if _this_root(n) else None)
+        return roots
+    def has_body(c):
+        return any(x.get("kind") == "CompoundStmt" for x in c.get("inner", []) or [])
+    def scan_record(rec):
+        nonlocal fields
+        if not fields:
+            fields = [c["name"] for c in rec.get("inner", []) or [] if c.get("kind") == "FieldDecl" and "name" in c]
+        for c in rec.get("inner", []) or []:
+            if c.get("kind") == "FunctionTemplateDecl" and c.get("name") == "serialize":
+                for md in c.get("inner", []) or []:
+                    if md.get("kind") == "CXXMethodDecl" and has_body(md):
+                        r = roots_of(md); rw["read"].append(r); rw["write"].append(list(r))
+            if c.get("kind") == "CXXMethodDecl" and c.get("name") in rw and has_body(c):
+                ptypes = " ".join(x.get("type", {}).get("qualType", "") for x in c.get("inner", []) if x.get("kind") == "ParmVarDecl")
+                want = "InArchive" if c["name"] == "read" else "OutArchive"
+                if want not in ptypes: continue
+                rw[c["name"]].append(roots_of(c))
     for o in _json_stream(p.stdout):
         k = o.get("kind"); nm = o.get("name")
-        def visit(n, owner_ok):
-            pass
-        if k in ("ClassTemplateDecl", "CXXRecordDecl") and nm == cname:
-            rec = o
-            if k == "ClassTemplateDecl":
-                rec = next((c for c in o.get("inner", []) if c.get("kind") == "CXXRecordDecl"), None)
-                if rec is None: continue
-            if not any(c.get("kind") in ("FieldDecl", "CXXMethodDecl") for c in rec.get("inner", []) or []): continue
-            if not fields:
-                fields = [c["name"] for c in rec.get("inner", []) if c.get("kind") == "FieldDecl" and "name" in c]
-            for c in rec.get("inner", []) or []:
-                if c.get("kind") == "CXXMethodDecl" and c.get("name") in rw and any(x.get("kind") == "CompoundStmt" for x in c.get("inner", []) or []):
-                    ptypes = " ".join(x.get("type", {}).get("qualType", "") for x in c.get("inner", []) if x.get("kind") == "ParmVarDecl")
-                    want = "InArchive" if c["name"] == "read" else "OutArchive"
-                    if want not in ptypes and "text_iarchive" not in ptypes and "polymorphic" not in ptypes: continue
-                    if rw[c["name"]] is None:
-                        roots = []
-                        _walk(c, lambda n: roots.append(_this_root(n)) if _this_root(n) else None)
-                        rw[c["name"]] = roots
-        elif k in ("CXXMethodDecl", "FunctionTemplateDecl") and nm in rw:
-            # out-of-line definition; the filter matched the qualified name
-            c = o
-            if not any(x.get("kind") == "CompoundStmt" for x in c.get("inner", []) or []): continue
-            if rw[nm] is None:
-                roots = []
-                _walk(c, lambda n: roots.append(_this_root(n)) if _this_root(n) else None)
-                rw[nm] = roots
+        if k == "ClassTemplateDecl" and nm == cname:
+            for rec in o.get("inner", []) or []:
+                if rec.get("kind") in ("CXXRecordDecl", "ClassTemplateSpecializationDecl"): scan_record(rec)
+        elif k in ("CXXRecordDecl", "ClassTemplateSpecializationDecl") and nm == cname:
+            scan_record(o)
+        elif k == "CXXMethodDecl" and nm in rw and has_body(o):
+            rw[nm].append(roots_of(o))
+    for k in rw:
+        rw[k] = rw[k] or None          # list of candidate root sequences (template pattern, instantiations)
     return (fields, rw["read"], rw["write"]), None
 
 
@@ -1064,7 +1086,8 @@ def ast_crosscheck(repo, results, includes, tmpdir, only=None, jobs=4):
                 continue
             if ast is None:
                 msgs.append("%s: clang found no definition" % side); continue
-            a = dedupe([x for x in ast if x in allmem])
+            # the most complete reading: an instantiation resolves members of dependent bases
+            a = max((dedupe([x for x in cand if x in allmem]) for cand in ast), key=len)
             t = dedupe([f["root"] for f in r["fields"][side] if not f["root"].startswith("<")])
             if a != t:
                 msgs.append("%s roots: clang %s, translator %s" % (side, a, t))
